@@ -40,12 +40,27 @@ def impl(case):
         Ain = A.real.astype(np.int64) if case.get("int_dtype") else A.real.copy()
     else:
         Ain = A.copy()
+    # the decomposition is linear: the same matrix scaled by an exact power of two must give the same weights scaled
+    # (no magnitude is "small enough to be zero"), and a tiny admixture must survive next to entries of order one
+    k2 = case.get("scale_exp", 0)
+    if k2:
+        A = A * 2.0 ** (-k2)
+        Ain = (Ain.astype(complex) if not np.iscomplexobj(Ain) and Ain.dtype.kind in "iu" else Ain) * 2.0 ** (-k2)
     w = matrix_decomposition(Ain)
+    if k2:
+        w = np.asarray(w) * 2.0 ** k2
+        A = A * 2.0 ** k2
+    if case.get("mixed"):
+        B = np.array([[complex(a, b) for a, b in row] for row in case["mixed"][0]], dtype=complex)
+        eps = 2.0 ** (-case["mixed"][1])
+        lhs = np.asarray(matrix_decomposition(A + eps * B))
+        rhs = np.asarray(matrix_decomposition(A.copy())) + eps * np.asarray(matrix_decomposition(B.copy()))
+        mixed_ok = bool(np.array_equal(lhs, rhs))
     scale = 2 ** n
     def ex(z):
         z = complex(z) * scale
         return [z.real, z.imag]
-    out = {"W": [ex(z) for z in w], "input_untouched": bool(np.array_equal(A, np.array([[complex(a, b) for a, b in row] for row in case["matrix"]])))}
+    out = {"W": [ex(z) for z in w], "mixed_ok": (mixed_ok if case.get("mixed") else True), "input_untouched": bool(np.array_equal(A, np.array([[complex(a, b) for a, b in row] for row in case["matrix"]])))}
     if n <= 3:
         # the property on the implementation's own objects: lookup by string, reconstruction, trace formula
         rec = np.zeros_like(A)
@@ -140,7 +155,11 @@ def main():
         n = ck.rng.choice([1, 2, 3] + ([4] if ck.rng.random() < 0.5 else []) + ([5] if ck.rng.random() < 0.06 else []) + ([5, 6] if (nmax == 6 and ck.rng.random() < 0.1) else []))
         kind, m = gen_matrix(ck.rng, n)
         c = {"op": "decomp", "n": n, "matrix": m, "kind": kind, "strings": all_pstr(n) if n <= 3 else [],
-             "layout": ck.rng.choice(["c", "c", "fortran", "transposed-view", "strided-view", "reversed-view", "real-dtype"]), "int_dtype": ck.rng.random() < 0.5}
+             "layout": ck.rng.choice(["c", "c", "fortran", "transposed-view", "strided-view", "reversed-view", "real-dtype"]), "int_dtype": ck.rng.random() < 0.5,
+             "scale_exp": ck.rng.choice([0, 0, 0, 20, 40, 70])}
+        if ck.rng.random() < 0.3:
+            gm = gen_matrix(ck.rng, n)
+            c["mixed"] = [gm[1] if isinstance(gm, tuple) else gm, ck.rng.choice([30, 40, 45])]
         if kind in ("diagonal",) or ck.rng.random() < 0.2:
             c["diag"] = [m[i][i] for i in range(2 ** n)] if kind == "diagonal" else [[ck.rng.randint(-4, 4), ck.rng.randint(-4, 4)] for _ in range(2 ** n)]
         c["unitary_like"] = True   # entropy and influence are defined for every operator (misnomer kept): always compared
@@ -165,7 +184,7 @@ def main():
         if r["W"] != W:
             k = next(j for j in range(len(W)) if j >= len(r["W"]) or r["W"][j] != W[j])
             bad.append("weight vector differs from the model at index %d: implementation 2^n*w = %s, model %s" % (k, r["W"][k] if k < len(r["W"]) else None, W[k]))
-        for key in ("reconstructs", "trace_formula", "diag_agrees", "input_untouched"):
+        for key in ("reconstructs", "trace_formula", "diag_agrees", "input_untouched", "mixed_ok"):
             if key in r and r[key] is not True:
                 bad.append("%s is %s" % (key, r[key]))
         if c.get("diag"):
